@@ -171,6 +171,9 @@ class Ctx:
             vs_ = [self._assumed(a_, _d + 1) for a_ in t[1]]
             if vs_ and all(v_[0] == "const" and v_[1] == "bool" for v_ in vs_) and len(set(v_[2] for v_ in vs_)) == 1:
                 return vs_[0]
+        if self.assumptions and t[0] == "call" and t[1] in ("std::option::Option::map_or", "std::result::Result::map_or") and len(t[2]) == 3 and t[2][1][0] == "const" and t[2][1][1] == "bool" and t[2][2][0] == "closure":
+            # opt.map_or(false, f) is opt.is_some_and(f); opt.map_or(true, f) is opt.is_none_or(f)
+            t = ("call", "std::option::Option::" + ("is_none_or" if t[2][1][2] else "is_some_and"), (t[2][0], t[2][2]))
         if self.assumptions and t[0] == "call" and t[1].split("::")[-1] in ("is_none_or", "is_some_and", "is_ok_and", "is_err_and") and len(t[2]) == 2 and t[2][1][0] == "closure" and _d < 3:
             # opt.is_none_or(f) / opt.is_some_and(f) / res.is_ok_and(f): decided by the Some/Ok-ness of the receiver in
             # this world and, where f applies, by f(payload)
@@ -821,6 +824,23 @@ def pass_edges(ctx, guard, prog, depth=3, found=None):
                 pol = guard.boolean(term)
                 if pol is not None:
                     hit = ((tt if pol else ft), (ft if pol else tt), "bool", term)
+        if hit is None and depth > 0 and (guard.boolean or guard.variant):
+            # a predicate method that computes the test (`if !batch.is_settled()` with `matches!(self.status, ..)`
+            # inside): with the guard's pass edges cut inside the helper its value is a constant; the other
+            # value is returned only where the guard passed
+            btst = bool_test(atom)
+            if btst is not None and btst[0][0] == "call":
+                term, tt, ft = btst
+                cb = _callee_body(prog, term)
+                if cb is not None and cb.key != ctx.body.key and (cb.j.get("ret_ty") or "") == "bool" and _is_pure_small(prog, cb):
+                    cctx = ctx.sub(cb, params={i + 1: a for i, a in enumerate(term[2])})
+                    sub_found = []
+                    sub_edges = pass_edges(cctx, guard, prog, depth - 1, sub_found)
+                    if sub_edges and sub_found:
+                        rt_ = fail_world(cctx.with_removed(sub_edges), guard).settle().T.return_term()
+                        if rt_[0] == "const" and rt_[1] == "bool":
+                            pol = not rt_[2]
+                            hit = ((tt if pol else ft), (ft if pol else tt), "predicate:" + cb.key, term)
         if hit is None and guard.variant and atom[0] == "variant":
             names = guard.variant(atom[1], set(atom[2].keys()))
             if names is not None:
@@ -1211,6 +1231,10 @@ def _closure_elem_params(ctx, cterm):
     for bi, t, args in call_sites(ctx, lambda n: n in ("std::option::Option::map", "std::option::Option::and_then", "std::option::Option::filter", "std::option::Option::is_some_and", "std::result::Result::map", "std::result::Result::and_then")):
         if len(args) == 2 and args[1][0] == "closure" and args[1][1] == cterm[1]:
             return {2: ("payload", args[0], "Ok/Some")}
+    # (also `opt.map_or(default, |x| ..)`, `opt.is_none_or(|x| ..)`, `res.is_ok_and(|x| ..)`)
+    for bi, t, args in call_sites(ctx, lambda n: n in ("std::option::Option::map_or", "std::result::Result::map_or", "std::option::Option::is_none_or", "std::result::Result::is_ok_and", "std::option::Option::inspect")):
+        if len(args) in (2, 3) and args[-1][0] == "closure" and args[-1][1] == cterm[1]:
+            return {2: ("payload", args[0], "Ok/Some")}
     return None
 
 
@@ -1484,6 +1508,12 @@ def ok_payload(t, tag="Ok/Some"):
                     alts2.append(a)
             elif a[0] == "call" and a[1] in ("std::option::Option::ok_or", "std::option::Option::ok_or_else", "std::result::Result::map_err", "std::result::Result::ok", "std::option::Option::filter", "std::option::Option::take") and a[2]:
                 alts2.append(("__payload_of__", a[2][0]))
+            elif a[0] == "call" and a[1].split("::")[-1] == "then_some" and "bool" in a[1] and len(a[2]) == 2:
+                # cond.then_some(v): where it is Some, its payload is v
+                alts2.append(("__value__", a[2][1]))
+            elif a[0] == "call" and a[1].split("::")[-1] == "then" and "bool" in a[1] and len(a[2]) == 2 and a[2][1][0] == "closure" and _closure_on(a[2][1], ("none",)) is not None:
+                # cond.then(|| v): where it is Some, its payload is what the closure returns
+                alts2.append(("__value__", _closure_on(a[2][1], ("none",))))
             elif a[0] == "call" and a[1] == "std::option::Option::transpose" and a[2] and a[2][0][0] == "agg" and a[2][0][2] in ("Some", "None"):
                 # Some(r).transpose()? == Some(r?) ; None.transpose()? == None
                 x_ = a[2][0]
@@ -1660,6 +1690,11 @@ def resolve_terms(prog, t, depth=3, _memo=None, assumptions=()):
                         pv_, neg_ = pv_[2], not neg_
                     if pv_[0] == "const" and pv_[1] == "bool":
                         out = args[0] if (pv_[2] != neg_) else ("agg", "std::option::Option", "None", ())
+            if out is None and t[1].split("::")[-1] == "then_some" and "bool" in t[1] and len(args) == 2 and args[0][0] == "const" and args[0][1] == "bool":
+                # a flag that the world (or the code) already fixed
+                out = ("agg", "std::option::Option", "Some", (("fld", "0", args[1]),)) if args[0][2] else ("agg", "std::option::Option", "None", ())
+            if out is None and t[1] == "std::option::Option::flatten" and len(args) == 1 and args[0][0] == "agg" and args[0][2] in ("Some", "None"):
+                out = args[0][3][0][2] if args[0][2] == "Some" else args[0]
             if out is None and assumptions and t[1].split("::")[-1] == "then_some" and "bool" in t[1] and len(args) == 2:
                 # flag.then_some(v): Some(v) when the world says the flag is set, None when it says it is not
                 for pred_, val_ in assumptions:
